@@ -103,7 +103,7 @@ func checkC10(c *Ctx) error {
 			}
 			checked++
 			oblig++
-			if finds := signatureFindings(it.Types, d, ref); len(finds) > 0 {
+			if finds := signatureFindings(it.Types, d, ref, importAliases(it.Prog)); len(finds) > 0 {
 				sig := map[string]string{"kind": "gate-signature", "how": finds[0]}
 				if seen[sigString(sig)] {
 					continue
@@ -129,16 +129,33 @@ func checkC10(c *Ctx) error {
 	return nil
 }
 
-func typeStr(t types.Type) string {
+// typeStr spells a type the way the corpus does: own package unqualified, context as
+// context, other packages by the import name or alias of the program's first file.
+func typeStr(t types.Type, own *types.Package, aliases map[string]string) string {
 	return types.TypeString(t, func(p *types.Package) string {
-		if p.Path() == "context" {
-			return "context"
+		switch {
+		case p == own:
+			return ""
+		case aliases[p.Path()] != "":
+			return aliases[p.Path()]
 		}
-		return ""
+		return p.Name()
 	})
 }
 
-func signatureFindings(pkg *types.Package, d corpus.Decl, ref *corpus.Ref) []string {
+func importAliases(pr *corpus.Program) map[string]string {
+	out := map[string]string{}
+	for _, im := range pr.ExtraImports {
+		f := strings.Fields(im)
+		path := strings.Trim(f[len(f)-1], "\"")
+		if len(f) == 2 {
+			out[path] = f[0]
+		}
+	}
+	return out
+}
+
+func signatureFindings(pkg *types.Package, d corpus.Decl, ref *corpus.Ref, aliases map[string]string) []string {
 	obj := pkg.Scope().Lookup(d.Name)
 	if obj == nil {
 		return []string{"no function named " + d.Name}
@@ -151,7 +168,7 @@ func signatureFindings(pkg *types.Package, d corpus.Decl, ref *corpus.Ref) []str
 	var got []string
 	ctxAt := -1
 	for i := 0; i < sig.Params().Len(); i++ {
-		s := typeStr(sig.Params().At(i).Type())
+		s := typeStr(sig.Params().At(i).Type(), pkg, aliases)
 		if s == "context.Context" {
 			if ctxAt >= 0 {
 				finds = append(finds, "context.Context appears twice")
@@ -174,7 +191,7 @@ func signatureFindings(pkg *types.Package, d corpus.Decl, ref *corpus.Ref) []str
 		finds = append(finds, "context.Context is not the first parameter although a needed provider is Async")
 	}
 	nres := sig.Results().Len()
-	if nres < 1 || typeStr(sig.Results().At(0).Type()) != d.Request {
+	if nres < 1 || typeStr(sig.Results().At(0).Type(), pkg, aliases) != d.Request {
 		finds = append(finds, "first result is not "+d.Request)
 	}
 	hasErr := nres == 2 && sig.Results().At(1).Type().String() == "error"
